@@ -1475,23 +1475,59 @@ def _op_const(op):
     return None
 
 
-def _thread_jumps(blocks, max_new=96, rounds=8):
+def _thread_jumps(blocks, max_new=240, rounds=48):
+    TRY_BRANCH = "core::ops::try_trait::Try::branch"
+
     def simple_block(b):
-        if b.get("cleanup") or b["term"]["k"] not in ("goto", "drop", "switch"):
+        t = b["term"]
+        if b.get("cleanup"):
+            return False
+        if t["k"] == "call":
+            if t.get("decl") != TRY_BRANCH or t.get("target") is None:
+                return False
+        elif t["k"] not in ("goto", "drop", "switch"):
             return False
         for st in b["stmts"]:
             if st["k"] == "assign":
                 if st["lhs"]["p"] or st["rv"]["k"] not in _PURE_RV:
                     return False
-            elif st["k"] not in ("dead", "live", "nop", "storage"):
-                if st["k"] == "set_discr":
-                    return False
+            elif st["k"] == "set_discr":
+                return False
         return True
 
-    def run(env, b, upto_term=True):
-        """interpret the pure statements of block b over env (local -> const)"""
+    def place_val(env, pl):
+        v = env.get(pl["l"])
+        for e in pl["p"]:
+            if v is None or not isinstance(v, tuple):
+                return None
+            if isinstance(e, dict) and "as" in e:
+                if v[1] != e["as"]:
+                    return None
+            elif isinstance(e, dict) and "f" in e:
+                try:
+                    v = v[2][int(e["f"])]
+                except Exception:
+                    return None
+            else:
+                return None
+        return v
+
+    def val(env, op):
+        c = _op_const(op)
+        if c is not None:
+            return c
+        pl = op.get("copy") or op.get("move")
+        if pl is None:
+            return None
+        return place_val(env, pl)
+
+    def run(env, b):
+        """interpret block b over env: local -> int constant | ('variant', name, [payload values])"""
         for st in b["stmts"]:
-            if st["k"] != "assign" or st["lhs"]["p"]:
+            if st["k"] != "assign":
+                continue
+            if st["lhs"]["p"]:
+                env[st["lhs"]["l"]] = None
                 continue
             rv = st["rv"]
             v = None
@@ -1499,24 +1535,40 @@ def _thread_jumps(blocks, max_new=96, rounds=8):
                 v = val(env, rv["a"])
             elif rv["k"] == "un" and rv.get("op") == "Not" and rv.get("ty") == "bool":
                 x = val(env, rv["a"])
-                v = None if x is None else (0 if x else 1)
+                v = None if not isinstance(x, int) else (0 if x else 1)
+            elif rv["k"] == "agg" and rv.get("agg") == "adt" and rv.get("variant"):
+                v = ("variant", rv["variant"], [val(env, f) for f in rv.get("fields", [])])
+            elif rv["k"] == "discr":
+                x = place_val(env, rv["place"])
+                if isinstance(x, tuple):
+                    inv = {n: int(k) for k, n in (rv.get("variants") or {}).items()}
+                    v = inv.get(x[1])
             env[st["lhs"]["l"]] = v
+        t = b["term"]
+        if t["k"] == "call":
+            v = None
+            if t.get("decl") == TRY_BRANCH and t.get("args"):
+                x = val(env, t["args"][0])
+                if isinstance(x, tuple) and x[1] in ("Ok", "Some"):
+                    v = ("variant", "Continue", list(x[2][:1]))
+                elif isinstance(x, tuple) and x[1] in ("Err", "None"):
+                    v = ("variant", "Break", [("variant", x[1], list(x[2]))])
+            elif t.get("decl") == "core::ops::try_trait::FromResidual::from_residual":
+                # `?` on the failure edge: Result's residual is always an Err, Option's always None
+                sty = t.get("self_ty") or ""
+                if sty.startswith("core::result::Result<"):
+                    v = ("variant", "Err", [None])
+                elif sty.startswith("core::option::Option<"):
+                    v = ("variant", "None", [])
+            if not t["dest"]["p"]:
+                env[t["dest"]["l"]] = v
 
-    def val(env, op):
-        c = _op_const(op)
-        if c is not None:
-            return c
-        pl = op.get("copy") or op.get("move")
-        if pl is None or pl["p"]:
-            return None
-        return env.get(pl["l"])
-
-    def tail_env(P, depth=6):
-        """constants known at the end of P (looking back through single-predecessor chains)"""
+    def tail_env(P, depth=12):
+        """values known at the end of P (looking back through single-predecessor chains)"""
         chain = [P]
         cur = P
         while depth > 0:
-            ps = preds.get(cur, [])
+            ps = sorted(set(preds.get(cur, [])))
             if len(ps) != 1 or ps[0] in chain:
                 break
             cur = ps[0]
@@ -1525,9 +1577,6 @@ def _thread_jumps(blocks, max_new=96, rounds=8):
         env = {}
         for x in reversed(chain):
             run(env, blocks[x])
-            t = blocks[x]["term"]
-            if t["k"] == "call":
-                env[t["dest"]["l"]] = None
         return env
 
     added = 0
@@ -1548,31 +1597,7 @@ def _thread_jumps(blocks, max_new=96, rounds=8):
             pl = t["discr"].get("copy") or t["discr"].get("move")
             if pl is None or pl["p"]:
                 continue
-            chain = [S["id"]]
-            cur = S["id"]
-            while len(set(preds.get(cur, []))) == 1:
-                q = preds[cur][0]
-                qb = blocks[q]
-                if q in chain or not simple_block(qb) or qb["term"]["k"] == "switch" or len(chain) > 6:
-                    break
-                chain.insert(0, q)
-                cur = q
-            head = chain[0]
-            hp = sorted(set(preds.get(head, [])))
-            if len(hp) < 2:
-                continue
-            for P in hp:
-                if P in chain:
-                    continue
-                env = tail_env(P)
-                for x in chain:
-                    run(env, blocks[x])
-                v = env.get(pl["l"])
-                if v is None:
-                    continue
-                hit = [a["target"] for a in t["arms"] if a["value"] == v]
-                dest = hit[0] if hit else t["otherwise"]
-                # clone the chain for this predecessor
+            def clone_for(P, chain, dest):
                 base = len(blocks)
                 for i, x in enumerate(chain):
                     nb = dict(blocks[x])
@@ -1587,15 +1612,49 @@ def _thread_jumps(blocks, max_new=96, rounds=8):
                                 _set_succ(nt, fld, base + i + 1)
                     nb["term"] = nt
                     blocks.append(nb)
-                added += len(chain)
                 pt = dict(blocks[P]["term"])
                 for fld in _succ_fields(pt):
-                    if _get_succ(pt, fld) == head:
+                    if _get_succ(pt, fld) == chain[0]:
                         _set_succ(pt, fld, base)
                 nbp = dict(blocks[P])
                 nbp["term"] = pt
                 blocks[P] = nbp
-                changed = True
+                return len(chain)
+
+            def explore(chain):
+                """find one predecessor path into `chain` on which the scrutinee is a known constant"""
+                head = chain[0]
+                hp = sorted(set(preds.get(head, [])))
+                for P in hp:
+                    if P in chain:
+                        continue
+                    env = tail_env(P)
+                    for x in chain:
+                        run(env, blocks[x])
+                    v = env.get(pl["l"])
+                    if isinstance(v, int):
+                        # only worth it if some other path reaches S too (otherwise constant folding suffices)
+                        hit = [a["target"] for a in t["arms"] if a["value"] == v]
+                        return P, chain, (hit[0] if hit else t["otherwise"])
+                for P in hp:
+                    if P in chain or len(chain) >= 8:
+                        continue
+                    pb = blocks[P]
+                    if simple_block(pb) and pb["term"]["k"] != "switch":
+                        r_ = explore([P] + chain)
+                        if r_:
+                            return r_
+                return None
+            if len(set(preds.get(S["id"], []))) == 0:
+                continue
+            found = explore([S["id"]])
+            if found:
+                P, chain, dest = found
+                # a single-path scrutinee needs no duplication when S has one predecessor chain only
+                multi = any(len(set(preds.get(x, []))) > 1 for x in chain)
+                if multi:
+                    added += clone_for(P, chain, dest)
+                    changed = True
             if changed:
                 break
         if not changed:
